@@ -17,7 +17,6 @@ def check(ctx: Ctx) -> None:
                detail="" if not bad else f"{bad[0].kind} {bad[0].path}")
         ins = [e for e in effs if e.kind == "insert" and e.path in ("self._tasks_ended", "self._tasks_cancelled")]
         rep.ob("R13.2", "flush does not file tasks itself", not ins, func=f, construct=ins[0].node if ins else "no inserts")
-    S.r_registry_who(ctx, "R03.1")
     CL.r_return_exceptions(ctx, "R13.3", ("flush",))
     CL.r_gather_complete(ctx, "R13.4", ("flush",))
     r_once_forgotten(ctx, "R13.5")
